@@ -319,6 +319,9 @@ type Proxy struct {
 	Addr string
 	L    net.Listener
 	done chan struct{}
+
+	stopOnce sync.Once
+	closed   chan struct{}
 }
 
 // Start serves p on a fresh loopback listener (optionally wrapped).
@@ -339,16 +342,18 @@ func Start(p *martian.Proxy, wrap func(net.Listener) net.Listener) *Proxy {
 	return pr
 }
 
-// Stop closes the proxy; reports whether Close returned within the bound.
+// Stop closes the proxy (once); reports whether Close returned within the bound.
 func (pr *Proxy) Stop(bound time.Duration) bool {
-	ch := make(chan struct{})
-	go func() {
-		pr.P.Close()
-		close(ch)
-	}()
-	pr.L.Close()
+	pr.stopOnce.Do(func() {
+		pr.closed = make(chan struct{})
+		go func() {
+			pr.P.Close()
+			close(pr.closed)
+		}()
+		pr.L.Close()
+	})
 	select {
-	case <-ch:
+	case <-pr.closed:
 		return true
 	case <-time.After(bound):
 		return false
